@@ -33,15 +33,18 @@ import (
 	"unicode/utf8"
 
 	"github.com/jensneuse/abstractlogger"
+	"github.com/wundergraph/astjson"
 	gqlast "github.com/vektah/gqlparser/v2/ast"
 	gqlparser "github.com/vektah/gqlparser/v2/parser"
 
 	"github.com/wundergraph/graphql-go-tools/execution/engine"
 	"github.com/wundergraph/graphql-go-tools/execution/graphql"
 	"github.com/wundergraph/graphql-go-tools/v2/pkg/astnormalization"
+	"github.com/wundergraph/graphql-go-tools/v2/pkg/astparser"
 	"github.com/wundergraph/graphql-go-tools/v2/pkg/astprinter"
 	"github.com/wundergraph/graphql-go-tools/v2/pkg/astvalidation"
 	"github.com/wundergraph/graphql-go-tools/v2/pkg/engine/datasource/graphql_datasource"
+	"github.com/buger/jsonparser"
 	"github.com/wundergraph/graphql-go-tools/v2/pkg/engine/plan"
 	"github.com/wundergraph/graphql-go-tools/v2/pkg/engine/resolve"
 )
@@ -51,6 +54,7 @@ import (
 type tyInfo struct {
 	gql  string // GraphQL type text
 	elem string // element type code for lists
+	dflt string // argument default of the root field (GraphQL literal), "" = none
 }
 
 var types = map[string]tyInfo{
@@ -58,25 +62,70 @@ var types = map[string]tyInfo{
 	"ID": {gql: "ID"}, "E": {gql: "E"}, "Big": {gql: "Big"}, "In": {gql: "In"}, "NStr": {gql: "String!"},
 	"LInt": {gql: "[Int]", elem: "Int"}, "LStr": {gql: "[String]", elem: "String"}, "LE": {gql: "[E]", elem: "E"},
 	"LIn": {gql: "[In]", elem: "In"}, "LLInt": {gql: "[[Int]]", elem: "LInt"}, "LBig": {gql: "[Big]", elem: "Big"},
+	// input objects whose fields have default values, lists of them
+	"InD": {gql: "InD"}, "InD2": {gql: "InD2"}, "LInD": {gql: "[InD]", elem: "InD"}, "LInD2": {gql: "[InD2]", elem: "InD2"},
+	// A*: same GraphQL type as the base, the root field has an argument default (mirrors GQLLiteral!Base / ArgDefault)
+	"AInt": {gql: "Int", elem: "", dflt: "7"}, "AStr": {gql: "String", dflt: `"d\t\"q"`}, "AE": {gql: "E", dflt: "B"},
+	"ALInt": {gql: "[Int]", elem: "Int", dflt: "[1, null]"}, "AInD": {gql: "InD", dflt: `{s: "given"}`},
+	"ALInD2": {gql: "[InD2]", elem: "InD2", dflt: "[{}, {x: 2}]"},
 }
 
-var typeOrder = []string{"Int", "Float", "String", "Boolean", "ID", "E", "Big", "In", "NStr", "LInt", "LStr", "LE", "LIn", "LLInt", "LBig"}
+// root fields f_<code>(a: T [= default]); M is the multi-argument field (see mFields)
+var typeOrder = []string{"Int", "Float", "String", "Boolean", "ID", "E", "Big", "In", "NStr", "LInt", "LStr", "LE", "LIn", "LLInt", "LBig",
+	"InD", "LInD", "AInt", "AStr", "AE", "ALInt", "AInD", "ALInD2"}
 
-var inFields = map[string]string{"i": "Int", "s": "String", "f": "Float", "b": "Boolean", "e": "E", "d": "ID", "g": "Big",
-	"l": "LInt", "ls": "LStr", "o": "In", "lo": "LIn"}
-var inFieldOrder = []string{"i", "s", "f", "b", "e", "d", "g", "l", "ls", "o", "lo"}
+var base = map[string]string{"AInt": "Int", "AStr": "String", "AE": "E", "ALInt": "LInt", "AInD": "InD", "ALInD2": "LInD2"}
+
+func baseOf(ty string) string {
+	if b, ok := base[ty]; ok {
+		return b
+	}
+	return ty
+}
+
+type fieldDef struct{ name, ty, dflt string }
+
+// input object types (mirrors GQLLiteral!InFieldTy / ObjKeyTy / FieldDefault)
+var objFields = map[string][]fieldDef{
+	"In": {{"i", "Int", ""}, {"s", "String", ""}, {"f", "Float", ""}, {"b", "Boolean", ""}, {"e", "E", ""}, {"d", "ID", ""}, {"g", "Big", ""},
+		{"l", "LInt", ""}, {"ls", "LStr", ""}, {"o", "In", ""}, {"lo", "LIn", ""}},
+	"InD": {{"i", "Int", "7"}, {"s", "String", `"d\t\"q"`}, {"e", "E", "B"}, {"f", "Float", "1.5e1"}, {"l", "LInt", "[1, 2]"},
+		{"o", "InD2", `{y: "z"}`}, {"lo", "LInD2", "[{x: 1}, {}]"}, {"n", "Int", ""}},
+	"InD2": {{"x", "Int", "9"}, {"y", "String", ""}},
+}
+
+// the arguments of f_M: the case treats them as the fields of a pseudo object of "type" M
+var mFields = []fieldDef{{"a", "Int", ""}, {"b", "Int", ""}, {"c", "ID", ""}, {"d", "String", ""}, {"e", "LInt", ""}, {"f", "Float", ""}}
 
 func schemaSDL() string {
 	var b strings.Builder
-	b.WriteString("schema { query: Query }\nscalar Big\nenum E { A B }\ninput In {")
-	for _, f := range inFieldOrder {
-		fmt.Fprintf(&b, " %s: %s", f, types[inFields[f]].gql)
+	b.WriteString("schema { query: Query }\nscalar Big\nenum E { A B }\n")
+	for _, t := range []string{"In", "InD", "InD2"} {
+		fmt.Fprintf(&b, "input %s {", t)
+		for _, f := range objFields[t] {
+			fmt.Fprintf(&b, " %s: %s", f.name, types[f.ty].gql)
+			if f.dflt != "" {
+				fmt.Fprintf(&b, " = %s", f.dflt)
+			}
+		}
+		b.WriteString(" }\n")
 	}
-	b.WriteString(" }\ntype Query {\n")
+	b.WriteString("type Query {\n")
 	for _, t := range typeOrder {
-		fmt.Fprintf(&b, "  f_%s(a: %s): String\n", t, types[t].gql)
+		fmt.Fprintf(&b, "  f_%s(a: %s", t, types[t].gql)
+		if types[t].dflt != "" {
+			fmt.Fprintf(&b, " = %s", types[t].dflt)
+		}
+		b.WriteString("): String\n")
 	}
-	b.WriteString("}\n")
+	b.WriteString("  f_M(")
+	for i, f := range mFields {
+		if i > 0 {
+			b.WriteString(", ")
+		}
+		fmt.Fprintf(&b, "%s: %s", f.name, types[f.ty].gql)
+	}
+	b.WriteString("): String\n}\n")
 	return b.String()
 }
 
@@ -268,7 +317,21 @@ func buildRequest(c Case) (query string, vars string) {
 		q.WriteString(") ")
 	}
 	fmt.Fprintf(&q, "{ f_%s", c.Ty)
-	if c.Expr.K != "omit" {
+	if c.Ty == "M" {
+		// the pseudo object's fields are the arguments of the field
+		if len(c.Expr.Items) > 0 {
+			q.WriteString("(")
+			for i, it := range c.Expr.Items {
+				if i > 0 {
+					q.WriteString(", ")
+				}
+				q.WriteString(str(c.Expr.Keys[i]))
+				q.WriteString(": ")
+				renderExpr(&q, it)
+			}
+			q.WriteString(")")
+		}
+	} else if c.Expr.K != "omit" {
 		q.WriteString("(a: ")
 		renderExpr(&q, c.Expr)
 		q.WriteString(")")
@@ -418,17 +481,30 @@ func (n *jnode) get(key string) (*jnode, int) {
 func isList(ty string) bool { return types[ty].elem != "" }
 
 func fieldType(ty, field string) (string, bool) {
+	ty = baseOf(ty)
 	if ty == "Big" {
 		return "Big", true
 	}
-	if ty == "In" {
-		t, ok := inFields[field]
-		return t, ok
+	fs := objFields[ty]
+	if ty == "M" {
+		fs = mFields
+	}
+	for _, f := range fs {
+		if f.name == field {
+			return f.ty, true
+		}
 	}
 	return "", false
 }
 
+func isObjTy(ty string) bool {
+	ty = baseOf(ty)
+	_, ok := objFields[ty]
+	return ok || ty == "Big"
+}
+
 func fromJSON(n *jnode, ty string) V {
+	ty = baseOf(ty)
 	switch n.kind {
 	case "null":
 		return mk("n")
@@ -478,7 +554,7 @@ func fromJSON(n *jnode, ty string) V {
 		}
 		return v
 	case "obj":
-		if ty != "In" && ty != "Big" {
+		if !isObjTy(ty) {
 			return mkErr("object for " + ty)
 		}
 		v := mk("o")
@@ -504,6 +580,7 @@ type evalCtx struct {
 // a variable without a runtime value evaluates to its default, else "not provided" (x);
 // x inside an input object drops the field; x inside a list becomes null.
 func (c *evalCtx) eval(v *gqlast.Value, ty string) V {
+	ty = baseOf(ty)
 	switch v.Kind {
 	case gqlast.Variable:
 		if c.vars != nil {
@@ -576,7 +653,7 @@ func (c *evalCtx) eval(v *gqlast.Value, ty string) V {
 		}
 		return r
 	case gqlast.ObjectValue:
-		if ty != "In" && ty != "Big" {
+		if !isObjTy(ty) {
 			return mkErr("object literal for " + ty)
 		}
 		r := mk("o")
@@ -677,6 +754,26 @@ func observe(query string, varsJSON []byte, ty string) (o Obs) {
 	if fld == nil {
 		o.Err = "root field f_" + ty + " not selected"
 		o.Val = mkErr(o.Err)
+		return o
+	}
+	if ty == "M" {
+		c := &evalCtx{vars: vars, defs: op.VariableDefinitions}
+		v := mk("o")
+		for _, a := range fld.Arguments {
+			ft, ok := fieldType("M", a.Name)
+			if !ok {
+				o.Val = mkErr("unknown argument " + a.Name)
+				return o
+			}
+			x := c.eval(a.Value, ft)
+			if x.T == "x" {
+				continue
+			}
+			v.K = append(v.K, cps(a.Name))
+			v.C = append(v.C, x)
+		}
+		o.HasArg = len(fld.Arguments) > 0
+		o.Val = v
 		return o
 	}
 	arg := fld.Arguments.ForName("a")
@@ -794,6 +891,12 @@ func newWorker(ctx context.Context) (*worker, error) {
 		fieldCfg = append(fieldCfg, plan.FieldConfiguration{TypeName: "Query", FieldName: "f_" + t, Path: []string{"f_" + t},
 			Arguments: []plan.ArgumentConfiguration{{Name: "a", SourceType: plan.FieldArgumentSource}}})
 	}
+	fieldNames = append(fieldNames, "f_M")
+	var margs []plan.ArgumentConfiguration
+	for _, f := range mFields {
+		margs = append(margs, plan.ArgumentConfiguration{Name: f.name, SourceType: plan.FieldArgumentSource})
+	}
+	fieldCfg = append(fieldCfg, plan.FieldConfiguration{TypeName: "Query", FieldName: "f_M", Path: []string{"f_M"}, Arguments: margs})
 	ds, err := plan.NewDataSourceConfiguration[graphql_datasource.Configuration]("sub", factory,
 		&plan.DataSourceMetadata{RootNodes: []plan.TypeField{{TypeName: "Query", FieldNames: fieldNames}}}, custom)
 	if err != nil {
@@ -848,7 +951,7 @@ func (w *worker) normalizeLikeEngine(query, vars, ty string) (o Obs) {
 	if err != nil || !vres.Valid {
 		return fail("validate", err, errStringer{vres.Errors})
 	}
-	res, err = req.Normalize(w.schema, astnormalization.WithExtractVariables())
+	res, err = req.Normalize(w.schema, astnormalization.WithExtractVariables(), astnormalization.WithRemoveUnusedVariables())
 	if err != nil || !res.Successful {
 		return fail("extract", err, errStringer{res.Errors})
 	}
@@ -934,12 +1037,189 @@ func (w *worker) run(c Case) Line {
 	return l
 }
 
+// ------------------------------------------------------------------ render mode: the variable renderers of template data sources
+//
+// Input  (-mode render): {"id","ty","kind":"json|plain|gql|csv","j":EXPR(JSON mode)}
+// The value j is the context variable x; a hand-built resolve.InputTemplate renders it through the REAL renderer:
+//
+//	json   {"v":<x>}                       JSONVariableRenderer            output must be JSON, member v evaluated
+//	plain  <x>                             PlainVariableRenderer           string: the raw characters; else JSON
+//	gql    {"query":"{f_T(a: <x>)}"}       GraphQLVariableRenderer         output must be JSON, the query is parsed by
+//	                                       (built from the type ref)       gqlparser and the argument evaluated at T
+//	csv    <x1>,<x2>,..                    CSVVariableRenderer             the raw text
+type RCase struct {
+	ID   string `json:"id"`
+	Ty   string `json:"ty"`
+	Kind string `json:"kind"`
+	J    Expr   `json:"j"`
+}
+
+type RLine struct {
+	ID      string `json:"id"`
+	C       RCase  `json:"c"`
+	Valid   bool   `json:"valid"`   // the rendered input is valid JSON (json, gql) / could be read back (plain non-string)
+	OutV    V      `json:"outv"`    // the rendered value read back by the independent parsers
+	OutText []int  `json:"outtext"` // the rendered bytes as code points (plain, csv)
+	Out     string `json:"out"`
+	Err     string `json:"err"`
+	Panic   bool   `json:"panic"`
+}
+
+func (w *worker) render(c RCase) (l RLine) {
+	l = RLine{ID: c.ID, C: c, OutV: mk("x"), OutText: []int{}}
+	defer func() {
+		if r := recover(); r != nil {
+			l.Panic = true
+			l.Err = fmt.Sprintf("panic: %v", r)
+		}
+	}()
+	var jb strings.Builder
+	jb.WriteString(`{"x":`)
+	renderJSON(&jb, c.J)
+	jb.WriteByte('}')
+	ctx := resolve.NewContext(context.Background())
+	ctx.Variables = astjson.MustParseBytes([]byte(jb.String()))
+	var r resolve.VariableRenderer
+	prefix, suffix := "", ""
+	switch c.Kind {
+	case "json":
+		r = resolve.NewJSONVariableRenderer()
+		prefix, suffix = `{"v":`, `}`
+	case "plain":
+		r = resolve.NewPlainVariableRenderer()
+	case "csv":
+		r = resolve.NewCSVVariableRenderer(resolve.JsonRootType{Value: jsonparser.Array, Kind: resolve.JsonRootTypeKindSingle})
+	case "gql":
+		op, rep := astparser.ParseGraphqlDocumentString(fmt.Sprintf("query($x: %s){f_%s(a: $x)}", types[c.Ty].gql, c.Ty))
+		if rep.HasErrors() {
+			l.Err = "operation for the renderer: " + rep.Error()
+			return l
+		}
+		gr, err := resolve.NewGraphQLVariableRendererFromTypeRefWithoutValidation(&op, w.schema.Document(), op.VariableDefinitions[0].Type)
+		if err != nil {
+			l.Err = err.Error()
+			return l
+		}
+		r = gr
+		prefix, suffix = fmt.Sprintf(`{"query":"{f_%s(a: `, c.Ty), `)}"}`
+	default:
+		l.Err = "bad kind"
+		return l
+	}
+	tpl := resolve.InputTemplate{Segments: []resolve.TemplateSegment{
+		{SegmentType: resolve.StaticSegmentType, Data: []byte(prefix)},
+		{SegmentType: resolve.VariableSegmentType, VariableKind: resolve.ContextVariableKind, VariableSourcePath: []string{"x"}, Renderer: r},
+		{SegmentType: resolve.StaticSegmentType, Data: []byte(suffix)},
+	}}
+	var buf bytes.Buffer
+	if err := tpl.Render(ctx, nil, &buf); err != nil {
+		l.Err = "render: " + err.Error()
+		return l
+	}
+	out := buf.Bytes()
+	l.Out = string(out)
+	switch c.Kind {
+	case "json":
+		n, err := strictJSON(out)
+		if err != nil {
+			l.Err = err.Error()
+			return l
+		}
+		l.Valid = true
+		if v, cnt := n.get("v"); cnt == 1 {
+			l.OutV = fromJSON(v, c.Ty)
+		}
+	case "gql":
+		n, err := strictJSON(out)
+		if err != nil {
+			l.Err = err.Error()
+			return l
+		}
+		l.Valid = true
+		q, _ := n.get("query")
+		if q == nil || q.kind != "str" {
+			l.OutV = mkErr("no query")
+			return l
+		}
+		o := observe(q.s, nil, c.Ty)
+		l.OutV = o.Val
+		l.Err = o.Err
+	case "plain":
+		l.OutText = cps(string(out))
+		if c.J.K != "str" {
+			if n, err := strictJSON(out); err == nil {
+				l.Valid = true
+				l.OutV = fromJSON(n, c.Ty)
+			} else {
+				l.Err = err.Error()
+			}
+		} else {
+			l.Valid = utf8.Valid(out)
+		}
+	case "csv":
+		l.OutText = cps(string(out))
+		l.Valid = utf8.Valid(out)
+	}
+	return l
+}
+
+func runRender(in, out string) {
+	f, err := os.Open(in)
+	if err != nil {
+		fmt.Fprintln(os.Stderr, err)
+		os.Exit(2)
+	}
+	defer f.Close()
+	w, err := newWorker(context.Background())
+	if err != nil {
+		fmt.Fprintln(os.Stderr, "engine setup failed:", err)
+		os.Exit(2)
+	}
+	of, err := os.Create(out)
+	if err != nil {
+		fmt.Fprintln(os.Stderr, err)
+		os.Exit(2)
+	}
+	bw := bufio.NewWriterSize(of, 1<<20)
+	enc := json.NewEncoder(bw)
+	enc.SetEscapeHTML(false)
+	sc := bufio.NewScanner(f)
+	sc.Buffer(make([]byte, 1<<20), 1<<26)
+	for sc.Scan() {
+		if len(bytes.TrimSpace(sc.Bytes())) == 0 {
+			continue
+		}
+		var c RCase
+		if err := json.Unmarshal(sc.Bytes(), &c); err != nil {
+			fmt.Fprintln(os.Stderr, "bad case line:", err)
+			os.Exit(2)
+		}
+		l := w.render(c)
+		fixExpr(&l.C.J)
+		fixV(&l.OutV)
+		if l.OutText == nil {
+			l.OutText = []int{}
+		}
+		if err := enc.Encode(&l); err != nil {
+			fmt.Fprintln(os.Stderr, err)
+			os.Exit(2)
+		}
+	}
+	_ = bw.Flush()
+	_ = of.Close()
+}
+
 func main() {
 	in := flag.String("in", "", "cases NDJSON")
 	out := flag.String("out", "", "observations NDJSON")
 	nw := flag.Int("workers", 8, "parallel engines")
 	printSchema := flag.Bool("schema", false, "print the schema and exit")
+	mode := flag.String("mode", "exec", "exec: replay cases through the engine; render: variable renderers on hand-built templates")
 	flag.Parse()
+	if *mode == "render" {
+		runRender(*in, *out)
+		return
+	}
 	if *printSchema {
 		fmt.Print(schemaSDL())
 		return
